@@ -233,6 +233,27 @@ def self_writes_in(fn):
     """Attribute stores / item stores / mutating method calls on `self.<attr>` inside a method body."""
     import ast
     bad = []
+    # locals that alias routine state: `x = self.attr`, `x = self.attr[i]`, `a, b = self.p, self.q`
+    tainted = {"self"}
+
+    def is_state_expr(e):
+        return isinstance(e, (ast.Attribute, ast.Subscript, ast.Name)) and \
+            bool(tainted & {x.id for x in ast.walk(e) if isinstance(x, ast.Name)}) and \
+            not any(isinstance(x, ast.Call) for x in ast.walk(e))
+    for _ in range(3):
+        for n in ast.walk(fn):
+            if isinstance(n, (ast.Assign, ast.AnnAssign)) and getattr(n, "value", None) is not None:
+                tg = n.targets if isinstance(n, ast.Assign) else [n.target]
+                for t in tg:
+                    if isinstance(t, ast.Name) and is_state_expr(n.value):
+                        tainted.add(t.id)
+                    if isinstance(t, ast.Tuple) and isinstance(n.value, ast.Tuple):
+                        for tt, vv_ in zip(t.elts, n.value.elts):
+                            if isinstance(tt, ast.Name) and is_state_expr(vv_):
+                                tainted.add(tt.id)
+
+    def touches_state(e):
+        return bool(tainted & {x.id for x in ast.walk(e) if isinstance(x, ast.Name)})
     for n in ast.walk(fn):
         targets = []
         if isinstance(n, ast.Assign):
@@ -243,10 +264,10 @@ def self_writes_in(fn):
             targets = n.targets
         for t in targets:
             for sub_ in ast.walk(t):
-                if isinstance(sub_, (ast.Attribute, ast.Subscript)) and "self" in {x.id for x in ast.walk(sub_) if isinstance(x, ast.Name)}:
+                if isinstance(sub_, (ast.Attribute, ast.Subscript)) and touches_state(sub_):
                     bad.append(f"line {n.lineno}: store to {ast.unparse(sub_)}")
         if isinstance(n, ast.Call) and isinstance(n.func, ast.Attribute) and n.func.attr in MUTATORS:
-            if "self" in {x.id for x in ast.walk(n.func.value) if isinstance(x, ast.Name)}:
+            if touches_state(n.func.value):
                 bad.append(f"line {n.lineno}: {ast.unparse(n.func)}(...)")
         if isinstance(n, ast.Call) and isinstance(n.func, ast.Name) and n.func.id in ("setattr", "delattr"):
             bad.append(f"line {n.lineno}: {n.func.id}(...)")
